@@ -188,6 +188,9 @@ func (lib *testCaseLibrary) expandSuite(suite *conformancev1.TestSuite, configCa
 
 func (lib *testCaseLibrary) expandCases(cfgCase configCase, namePrefix []string, testCases []*conformancev1.TestCase) error {
 	for i, testCase := range testCases {
+		if testCase.Request == nil {
+			return fmt.Errorf("test case #%d: test case has no request", i+1)
+		}
 		if testCase.Request.TestName == "" {
 			return fmt.Errorf("test case #%d: test case has no name", i+1)
 		}
